@@ -308,7 +308,7 @@ def build_request(ex, meta):
         r["trait"] = o["trait"]
     if "derive" in o:
         r["derive_keep"] = [x for x in o["derive"].split(",") if x and x != "Structural"]
-    for k in ("index_recv", "drop_calls", "opaque_macros", "mut_params"):
+    for k in ("index_recv", "drop_calls", "opaque_macros", "mut_params", "str_params"):
         if k in o:
             r[k] = o[k].split(",")
     if "field_types" in o:
